@@ -99,6 +99,7 @@ type Frame struct {
 	Type int
 	Data []byte
 	at   time.Duration // virtual time from which the frame can be read (network latency)
+	buffered bool      // had already arrived when the socket was closed locally (may sit in the read buffer)
 }
 
 // SetLatency makes every frame written from now on readable only d later (per execution).
@@ -234,6 +235,13 @@ func (c *Conn) Close() error {
 	if c.rdTimer != nil {
 		c.rdTimer.Stop()
 	}
+	// frames that arrived before the close may already be in the connection's read buffer: a read that is
+	// in progress can still return them successfully after the close
+	for i := range c.inbox {
+		if c.inbox[i].at <= vnow() {
+			c.inbox[i].buffered = true
+		}
+	}
 	c.peer.peerGone = true
 	return nil
 }
@@ -260,6 +268,12 @@ func (c *Conn) ReadMessage() (int, []byte, error) {
 		simrt.BlockOn("ws.Read "+c.Name, []*uint64{&c.h}, c.readable)
 		switch {
 		case c.closed:
+			if len(c.inbox) > 0 && c.inbox[0].buffered && (c.inbox[0].Type == TextMessage || c.inbox[0].Type == BinaryMessage) &&
+				simrt.ChooseFree("ws-read-from-buffer-after-close:"+c.Name, 2) == 1 {
+				f := c.inbox[0]
+				c.inbox = c.inbox[1:]
+				return f.Type, f.Data, nil
+			}
 			c.readErr = &net.OpError{Op: "read", Net: "fake", Err: errors.New("use of closed network connection")}
 			return 0, nil, c.readErr
 		case c.linkDown:
